@@ -55,7 +55,7 @@ def render_piece(p):
         if e[0] == "p":
             inner = r_param_inner(e[1])
             simple = e[1][0] in ("n", "*", "@", "c") or (e[1][0] == "1" and e[1][1] < 10)
-            return ("$" + inner) if (simple and not e[2]) else ("${" + inner + "}")
+            return ("$" + inner) if (simple and len(e) > 2 and not e[2]) else ("${" + inner + "}")
         if e[0] in ("d", "a"):
             op = (":" if e[1] else "") + ("-" if e[0] == "d" else "+")
             return "${" + r_param_inner(e[2]) + op + e[3] + "}"
